@@ -243,6 +243,34 @@ for n1, n2 in ((4, 4), (4, 300), (256, 257), (200, 70), (3, 66000)):
                 lambda n1=n1, n2=n2, order=order: positional_contract(n1, n2, order))
 
 
+def extreme_scores(value):
+    """scores at the edge of the 32-bit range would overflow in the alignment table: the constructor refuses the two
+    extreme values; large but safe magnitudes are accepted and aligned correctly"""
+    table = np.where(np.eye(4, dtype=bool), 5, -3).astype(np.int64)
+    table[0, 1] = value
+    info = np.iinfo(np.int32)
+    try:
+        m = align.SubstitutionMatrix(ALPH, ALPH, table)
+    except ValueError:
+        return None if value in (info.min, info.max) or not (info.min <= value <= info.max) else f"a score of {value} was refused"
+    if value in (info.min, info.max):
+        return f"a score of {value} (the {'minimum' if value < 0 else 'maximum'} of int32) was accepted: the alignment table would overflow"
+    if int(m.score_matrix()[0, 1]) != value:
+        return f"score {value} stored as {int(m.score_matrix()[0, 1])}"
+    if abs(value) <= 10 ** 6:
+        s1, s2 = seq.NucleotideSequence("CAAC"), seq.NucleotideSequence("ACAC")
+        got = align.align_optimal(s1, s2, m, gap_penalty=-4, max_number=1)[0].score
+        exp = brute(s1.code, s2.code, table, -4, True, False)
+        if got != exp:
+            return f"optimum with a score of {value} in the matrix: {got}, brute force {exp}"
+    return None
+
+
+for value in (-2 ** 31, 2 ** 31 - 1, -10 ** 6, 10 ** 6, -1000, 12345):      # (the property quantifies over int32 matrices)
+    R.check("substitution matrix accessors and transpose() agree with the score table", "extreme scores", {"score": value},
+            lambda value=value: extreme_scores(value))
+
+
 _mrng = np.random.default_rng(8)
 RECT = _mrng.integers(-5, 6, size=(4, len(A2))).astype(np.int32)
 RECT_MATRIX = align.SubstitutionMatrix(A1, A2, RECT)
